@@ -154,6 +154,59 @@ theorem C20_single_byte_detected_concrete (body : Bytes) (v : Version) (i : Nat)
       (body.set i b ++ footerBytes decimalCodec { version := v, crc := crc32 body }) = .damaged :=
   C20_single_byte_detected decimalCodec C20_decimalCodec_good body v i hi b hb
 
+/-- `Index::validate_checksum` reports exactly the managed files of committed segments whose
+content no longer validates (when every such file is readable) -/
+theorem C20_validation_walks_all (C : PayloadCodec) (active managed : List Nat)
+    (read : Nat → Option Bytes) (ds : List Nat)
+    (h : indexValidate C active managed read = some ds) (p : Nat) :
+    p ∈ ds ↔ p ∈ active ∧ p ∈ managed ∧ ∃ b, read p = some b ∧ validate C b = .damaged := by
+  unfold indexValidate at h
+  simp only at h
+  have key : ∀ (walk : List Nat) (ds : List Nat),
+      walk.foldr (fun p acc =>
+        match acc, read p with
+        | none, _ => none
+        | _, none => none
+        | some ds, some bytes =>
+          match validate C bytes with
+          | .intact => some ds
+          | .damaged => some (p :: ds)
+          | .unreadable _ => none) (some []) = some ds →
+      (p ∈ ds ↔ p ∈ walk ∧ ∃ b, read p = some b ∧ validate C b = .damaged) := by
+    intro walk
+    induction walk with
+    | nil => intro ds h; simp at h; subst h; simp
+    | cons q walk ih =>
+      intro ds h
+      simp only [List.foldr_cons] at h
+      split at h
+      · cases h
+      · cases h
+      · rename_i ds' bytes hacc hread
+        have ih' := ih ds' hacc
+        split at h
+        · injection h with h; subst h
+          rw [ih']
+          constructor
+          · rintro ⟨hm, hb⟩; exact ⟨List.mem_cons_of_mem _ hm, hb⟩
+          · rintro ⟨hm, b, hb, hv⟩
+            rcases List.mem_cons.mp hm with rfl | hm
+            · rw [hread] at hb; injection hb with hb; subst hb; simp_all
+            · exact ⟨hm, b, hb, hv⟩
+        · injection h with h; subst h
+          rw [List.mem_cons, ih']
+          constructor
+          · rintro (rfl | ⟨hm, hb⟩)
+            · exact ⟨List.mem_cons_self, bytes, hread, by assumption⟩
+            · exact ⟨List.mem_cons_of_mem _ hm, hb⟩
+          · rintro ⟨hm, hb⟩
+            rcases List.mem_cons.mp hm with rfl | hm
+            · exact Or.inl rfl
+            · exact Or.inr ⟨hm, hb⟩
+        · cases h
+  rw [key _ ds h]
+  simp [List.mem_filter, and_assoc]
+
 /-! ### what no 32-bit checksum can promise
 
 The property text says "any … truncation or extension of a segment file's body is detected".
